@@ -30,7 +30,7 @@ const (
 	NFSERR_NOTSUPP     = 10004 // Operation not supported
 	NFSERR_TOOSMALL    = 10005 // Buffer or request is too small
 	NFSERR_JUKEBOX     = 10008 // Server busy, try again later (used during policy drain)
-	NFSERR_DELAY       = 10013 // Server is temporarily busy (rate limit exceeded)
+	NFSERR_DELAY       = 10008 // Server is temporarily busy (rate limit exceeded): NFSv3 has no status of its own for this, clients retry on NFS3ERR_JUKEBOX
 
 	// Alias for backward compatibility - use NFSERR_ACCES for NFS3 access denied errors
 	ACCESS_DENIED = NFSERR_ACCES
